@@ -113,6 +113,32 @@ def gatedAsks (lim : Limits) (k : Key × Bool) : RState → List Req → List (I
     if (r.key, r.health) == k then (r.time, (globalStep lim st r).1) :: gatedAsks lim k x.2 rs
     else gatedAsks lim k x.2 rs
 
+/-! ### Clean-up passes between requests -/
+
+/-- What happens at the validator over time: a request, or one pass of the clean-up goroutine. -/
+inductive Ev
+  | req (r : Req)
+  | sweep (t : Int)
+  deriving Repr
+
+def Ev.time : Ev → Int
+  | .req r => r.time
+  | .sweep t => t
+
+/-- cleanupOldLimiters: every per-key limiter is looked at (the global limiter is never dropped). -/
+def sweepState (v : EvictVariant) (lim : Limits) (st : RState) (t : Int) : RState :=
+  { st with perKey := fun k => sweep v (limitFor lim k.2) lim.burst (st.perKey k) t }
+
+def rateRunS (v : EvictVariant) (lim : Limits) : RState → List Ev → List (Req × Bool)
+  | _, [] => []
+  | st, .sweep t :: rest => rateRunS v lim (sweepState v lim st t) rest
+  | st, .req r :: rest => let x := rateStep lim st r; (r, x.1) :: rateRunS v lim x.2 rest
+
+def reqsOf : List Ev → List Req
+  | [] => []
+  | .sweep _ :: rest => reqsOf rest
+  | .req r :: rest => r :: reqsOf rest
+
 /-! ### What the client is told -/
 
 inductive Refusal | rateLimited | bodyTooLarge
